@@ -823,6 +823,9 @@ class HfProtocol(utils.EventEmitter):
         """
         try:
             async with self.command_lock:
+                # Discard result codes left over from a previous command
+                while not self.response_queue.empty():
+                    self.response_queue.get_nowait()
                 self.pending_command = cmd
                 logger.debug(f">>> {cmd}")
                 self.dlc.write(cmd + '\r')
